@@ -434,6 +434,84 @@ def work_misc(unit):
     return {"stats": dict(stats), "findings": findings, "n": n, "samples": [], "wall": 0}
 
 
+def independent_validity(target, leaves):
+    """Which of the three rejection rules does the assignment violate? (independent statement)"""
+    tname, tidx = target
+    broken = set()
+    if any(n == tname for n, _ in leaves):
+        broken.add("MutatingAssignmentError")
+    orders = {}
+    for n, idx in leaves:
+        if orders.setdefault(n, len(idx)) != len(idx):
+            broken.add("InconsistentDimensionsError")
+    tensor_names = {tname} | {n for n, _ in leaves}
+    index_names = set(tidx) | {i for _, idx in leaves for i in idx}
+    if tensor_names & index_names:
+        broken.add("NameConflictError")
+    return broken
+
+
+def work_validity(unit):
+    """Every assignment over a tiny alphabet SHARED between tensor and index names: accepted iff it
+    breaks none of the three rules; rejected with the type of one of the rules it breaks."""
+    from returns.result import Success
+
+    from tensora.expression import parse_assignment
+
+    stats = Counter()
+    findings = []
+    n = 0
+    names = ["A", "B", "C"]
+    idxs = ["i", "A", "B"]
+
+    def refs(max_order):
+        out = []
+        for nm in names:
+            for o in range(max_order + 1):
+                for t in itertools.product(idxs, repeat=o):
+                    out.append((nm, t))
+        return out
+
+    targets = [(nm, t) for nm in ("A", "C") for o in (0, 1) for t in itertools.product(idxs, repeat=o)]
+    spaces = [(refs(2), 2, ["{0} + {1}", "{0} * {1}"]), (refs(1), 3, ["{0} + {1} * {2}", "({0} - {1}) * {2}"])]
+    k = 0
+    for pool, nl, shapes in spaces:
+        for leaves in itertools.product(pool, repeat=nl):
+            k += 1
+            if k % unit["parts"] != unit["part"]:
+                continue
+            texts = [f"{nm}({','.join(t)})" for nm, t in leaves]
+            for target in targets:
+                broken = independent_validity(target, leaves)
+                for shape in shapes:
+                    n += 1
+                    s = f"{target[0]}({','.join(target[1])}) = " + shape.format(*texts)
+                    try:
+                        r = parse_assignment(s)
+                    except BaseException as e:  # noqa: BLE001
+                        findings.append(_f("parse-raises", f"parse_assignment({s!r}) raised {type(e).__name__}",
+                                           {"text": s}, exception=type(e).__name__, parser="assignment"))
+                        continue
+                    if isinstance(r, Success):
+                        if broken:
+                            findings.append(_f("invalid-accepted", f"{s!r} was accepted although it violates "
+                                               f"{sorted(broken)}", {"text": s}, rule=sorted(broken)[0]))
+                        else:
+                            stats["valid assignments accepted"] += 1
+                    else:
+                        got = type(r.failure()).__name__
+                        if not broken:
+                            findings.append(_f("valid-rejected", f"{s!r} is valid but was rejected with {got}", {"text": s}))
+                        elif got not in broken:
+                            findings.append(_f("invalid-error-type", f"{s!r}: rejected with {got}, it violates "
+                                               f"{sorted(broken)}", {"text": s}))
+                        else:
+                            stats["invalid assignments rejected with a matching type"] += 1
+                if too_many(findings):
+                    break
+    return {"stats": dict(stats), "findings": cap_findings(findings), "n": n, "samples": [], "wall": 0}
+
+
 def run(tier, seed):
     run = Run("C12", tier, seed)
     units = []
@@ -456,6 +534,8 @@ def run(tier, seed):
         units.append(("work_trees", {"lo": lo, "hi": lo + 1, "max_leaves": max_leaves, "literals": lits,
                                      "redundant": True, "blanks": ["", " ", "  "]}))
     units.append(("work_misc", {"max_format_order": 4 if tier == "quick" else 5}))
+    for k in range(16):
+        units.append(("work_validity", {"part": k, "parts": 16}))
     units = rotate(units, seed)
     by = {}
     for fn, arg in units:
@@ -485,7 +565,10 @@ def run(tier, seed):
              "operators, tensors of order 0..2 and every literal spelling class): tree -> deparse -> parse is the "
              "identity; every sentence of the tree (minimal parentheses, one redundant pair at each subexpression, "
              "0/1/2 blanks at token boundaries) parses to exactly that tree and evaluates to what Python arithmetic "
-             "gives for the same text. (3) invalid assignments yield the typed failure; all formats of order 0..4(5) "
+             "gives for the same text. (3) every 2-leaf (orders 0..2) and 3-leaf (orders 0..1) assignment over the "
+             "names {A,B,C} and the index alphabet {i,A,B} (shared on purpose): accepted iff it reuses no target, uses "
+             "no tensor with two orders and no name as both tensor and index (independent validator), rejected with "
+             "the type of a rule it breaks; all formats of order 0..4(5) "
              "round-trip; limit probes. non-trivial = accepted strings/sentences (each is re-parsed and compared)",
         exhaustive=True,
     )
